@@ -6,8 +6,13 @@
                           `index -= 1`, `index = end_index` with a `panic` outcome exactly where
                           Rust would unwind) never panics and computes exactly what the suffix
                           model computes — so the theorems above, and C01's round trip, hold of it.
+  Props/C08TranslatedFns.lean : the functions built on `parse_next_value` (find_label,
+                          find_output_and_command, parse_pre_process_line, parse_command_line,
+                          parse_line, parse_arguments…) as TRANSLATED from the current source
+                          (Generated/ParserFns.lean) equal the hand-written models.
 -/
 import DuckModel.Props.C08Core
 import DuckModel.Props.C08Indexed
 import DuckModel.Props.C08Translated
+import DuckModel.Props.C08TranslatedFns
 import DuckModel.Props.C08Dead
